@@ -670,7 +670,8 @@ class CallMixin(ExprMixin):
             key = self.spec.methods.get((v.ty.cls, '__await__'))
             if isinstance(key, str):
                 C = self.spec.functions[key]
-                return self.apply_contract(C, {next(iter(C.params)): v})
+                name = next(iter(C.params), None) or next(iter(C.free))
+                return self.apply_contract(C, {name: v})
         raise Unsupported('await of %r' % (v,))
 
     # ------------------------------------------------------------------ suspension points (A1, A8)
